@@ -82,7 +82,7 @@ def gen_c05(tier, seed):
         for d in hdisp:
             g.add(setup_ops(rnd_regs(r, psw), [], [0x7a] + le(d, 2)) + ['st'], 'brh')
             g.add(setup_ops(rnd_regs(r, psw), [], [0x36] + le(d, 2)) + ['st', 'rw:%x' % STK], 'bsbh')
-        for tgt in [0x700200, 0x12345678, 0]:
+        for tgt in [0x700200, 0x12345678, 0, PC0, PC0 + 1, PC0 - 1, PC0 + 6]:
             g.add(setup_ops(rnd_regs(r, psw), [], ins(0x24, absa(tgt))) + ['st'], 'jmp')
             g.add(setup_ops(rnd_regs(r, psw), [], ins(0x34, absa(tgt))) + ['st', 'rw:%x' % STK], 'jsb')
             regs = rnd_regs(r, psw)
@@ -1161,9 +1161,14 @@ def gen_c07(tier, seed):
                             lst += be(r.randrange(1 << 32), 4)
                     lst += be(0, 4)
                     pcb = be(hpsw, 4) + be(HCODE, 4) + be(0x760000, 4) + [0] * 52 + lst + [0] * 16
-                    mem = [(0x8c, be(HPCB, 4) * 64), (HPCB, pcb), (HCODE, [0x30, 0xc8, 0x70, 0x70]),
+                    # the handler overwrites registers before it returns (an R block must bring r0-r8, FP, AP back)
+                    hcode = []
+                    nh = r.randrange(0, 5)
+                    for _h in range(nh):
+                        hcode += ins(OP['MOVW'], immw(r.randrange(1 << 32)), reg(r.choice([0, 1, 2, 3, 4, 5, 6, 7, 8, 9, 10])))
+                    mem = [(0x8c, be(HPCB, 4) * 64), (HPCB, pcb), (HCODE, hcode + [0x30, 0xc8, 0x70, 0x70]),
                            (OLDPCB, [r.randrange(256) for _ in range(0x40)] + [0] * 0x20), (ISTK - 8, [r.randrange(256) for _ in range(0x30)])]
-                    ops = setup_ops(regs, mem, [0x70] * 8) + ['k:3e8', 'md:1', 'gi', 'gr', 'st', 'gr']
+                    ops = setup_ops(regs, mem, [0x70] * 8) + ['k:3e8', 'md:1', 'gi', 'gr', 'st', 'gr'] + ['st', 'gr'] * nh
                     for dst, cnt in dests:
                         ops += ['rw:%x' % (dst + 4 * w) for w in range(cnt)]
                     ops += ['st', 'gr', 'X:2']
